@@ -1,7 +1,8 @@
 (* Proofs/GenAgreeC07Run.v — property C07: the translated pieces of compose/graph.go put together.
 
    [xrun u] is the builder of Model/TypeBuilderGenLib.v (Section XBuilder) instantiated with the
-   Gallina code tools/go2v translated from the source: the entry-loop body of updateToValidateMap
+   Gallina code tools/go2v translated from the source -- addNode, addEdgeWithMappings and addBranch as
+   whole functions, the work-list loop of updateToValidateMap, the type-related checks of compile: the entry-loop body of updateToValidateMap
    (Gen/ValidateCode.v), the type handling and the end-node loop body of addBranch
    (Gen/BranchCode.v) and the option / state-handler checks of addNode (Gen/AddNodeCode.v); it runs
    on the builder state extended by the genericHelper of every node.  For every universe, every
@@ -17,12 +18,13 @@
        the node has at that moment -- also for nodes whose type was inferred through any chain
        of passthrough nodes, forwards, backwards or from a branch. *)
 From Eino Require Import Base.Util Model.Types Model.TypesGenLib Model.TypeBuilder Model.TypeBuilderGenLib.
-From Eino Require Import Proofs.TypesBuilder Proofs.GenAgreeC07Validate Proofs.GenAgreeC07Branch Proofs.GenAgreeC07AddNode Proofs.GenAgreeC07Compile.
-From Eino Require Gen.ValidateCode Gen.BranchCode Gen.AddNodeCode Gen.CompileCode.
+From Eino Require Import Proofs.TypesBuilder Proofs.GenAgreeC07Validate Proofs.GenAgreeC07Branch Proofs.GenAgreeC07AddNode Proofs.GenAgreeC07Compile Proofs.GenAgreeC07AddEdge.
+From Eino Require Gen.ValidateCode Gen.BranchCode Gen.AddNodeCode Gen.CompileCode Gen.AddEdgeCode.
 Module V := Gen.ValidateCode.
 Module B := Gen.BranchCode.
 Module A := Gen.AddNodeCode.
 Module C := Gen.CompileCode.
+Module E := Gen.AddEdgeCode.
 Arguments check_assignable : simpl never.
 
 (* a node's input type is known iff its output type is: a lambda is declared with both, a
@@ -136,8 +138,8 @@ Section Run.
   Variable u : univ.
 
   Definition xupd := x_upd (V.validate_entry u).
-  Definition xstep := x_step (V.validate_entry u) (B.branch_head u) B.branch_end (A.add_node_checks u) C.compile_checks.
-  Definition xrun := x_run_ops (V.validate_entry u) (B.branch_head u) B.branch_end (A.add_node_checks u) C.compile_checks.
+  Definition xstep := x_step (V.validate_entry u) (A.add_node u) E.add_edge (B.add_branch u) C.compile_checks.
+  Definition xrun := x_run_ops (V.validate_entry u) (A.add_node u) E.add_edge (B.add_branch u) C.compile_checks.
 
   Lemma xupd_ok : forall orc, upd_ok u orc (xupd orc).
   Proof. intro orc. exact (upd_of_ok u orc). Qed.
@@ -151,106 +153,65 @@ Section Run.
   Proof. intros xs I. apply gh_inv_with; auto. Qed.
 
   (* a new node with its declared types and the helper of its runnable *)
-  Lemma gh_inv_add_node : forall xs k n,
+  Lemma gh_inv_push_node : forall xs k isp i o pre post,
     gh_inv xs -> has_node (x_st xs) k = false ->
-    match n_in n, n_out n with Some _, Some _ | None, None => True | _, _ => False end ->
-    gh_inv {| x_st := set_nodes (x_st xs) (g_nodes (x_st xs) ++ [(k, n)]);
-              x_gh := nlist_set k (match n_in n, n_out n with Some a, Some b => gh_new a b | _, _ => None end) (x_gh xs) |}.
+    match i, o with Some _, Some _ | None, None => True | _, _ => False end ->
+    gh_inv (x_push_node xs k isp i o pre post).
   Proof.
-    intros xs k n I Hn Sh k'. destruct (I k') as [I1 I2].
-    unfold V.get_node_generic_helper, x_graph_gh, x_node_gh, in_ty, out_ty, get_node in *. simpl.
+    intros xs k isp i o pre post I Hn Sh k'. destruct (I k') as [I1 I2].
+    unfold V.get_node_generic_helper, x_graph_gh, x_node_gh, in_ty, out_ty, get_node, x_push_node in *. simpl.
     destruct (N.eqb k' kSTART); [split; assumption|]. destruct (N.eqb k' kEND); [split; assumption|].
     rewrite get_app_new, nlist_get_set.
     unfold has_node, get_node in Hn.
     destruct (N.eqb_spec k' k) as [E|E].
     - subst k'. destruct (nlist_get k (g_nodes (x_st xs))); [discriminate|].
-      destruct (n_in n) as [a|], (n_out n) as [b|]; try destruct Sh; split; intros t H; inversion H; subst; reflexivity.
+      destruct i as [a|], o as [b|]; try destruct Sh; split; intros t H; inversion H; subst; reflexivity.
     - destruct (nlist_get k' (g_nodes (x_st xs))); split; auto; intros t H; discriminate.
   Qed.
 
-  Lemma xb_ends_agrees : forall (orc : nat -> nat -> list key) ends j xs s,
-    x_branch_ends (V.validate_entry u) B.branch_end orc j xs s ends = xb_ends (fun j => xupd (orc j)) j xs s ends.
-  Proof.
-    intros orc ends; induction ends as [|e rest IH]; intros j xs s; simpl; [reflexivity|].
-    fold (xupd (orc (S j))). destruct (B.branch_end (xupd (orc (S j))) xs s e); [apply IH | reflexivity].
-  Qed.
-
-  Lemma conv_tys_map_Some : forall l, conv_tys (map Some l) = l.
-  Proof. induction l as [|x l IH]; simpl; [reflexivity | rewrite IH; reflexivity]. Qed.
+  Lemma branch_upd_ok : forall (orc : nat -> nat -> list key),
+    upd_ok u (fun n => orc 0%nat (S n)) (x_branch_upd (V.validate_entry u) orc 0%nat) /\
+    forall j, upd_ok u (orc (S j)) (x_branch_upd (V.validate_entry u) orc (S j)).
+  Proof. intro orc. split; [exact (xupd_ok _) | intro j; exact (xupd_ok _)]. Qed.
 
   Lemma xstep_agrees : forall orc xs o, gh_inv xs -> known_together (x_st xs) ->
     step u orc (x_st xs) o = (x_st (fst (xstep orc xs o)), snd (xstep orc xs o)) /\ gh_inv (fst (xstep orc xs o)).
   Proof.
     intros orc xs o I KT. destruct o as [k i ot pre post | k pre post | s e | s t ends choice |]; unfold xstep, step, step_sel, x_step.
     - (* AddLambdaNode *)
-      unfold x_add_node, add_node. rewrite gen_add_node_checks_agrees.
-      destruct (g_err (x_st xs)); [split; [reflexivity | exact I]|].
-      destruct (g_compiled (x_st xs)); [split; [reflexivity | exact I]|].
-      destruct (N.eqb k kSTART || N.eqb k kEND); [split; [reflexivity | apply gh_inv_err, I]|].
-      destruct (has_node (x_st xs) k) eqn:Hn; [split; [reflexivity | apply gh_inv_err, I]|].
-      destruct (handler_ok (x_st xs) (Some i) pre); cbn [negb andb]; [|split; [reflexivity | apply gh_inv_err, I]].
-      destruct (handler_ok (x_st xs) (Some ot) post); cbn [negb andb]; [|split; [reflexivity | apply gh_inv_err, I]].
-      split; [reflexivity|]. refine (gh_inv_add_node xs k _ I Hn _). exact Logic.I.
+      unfold x_add_node. pose proof (gen_add_node_agrees u xs k false (Some i) (Some ot) pre post) as H.
+      destruct (A.add_node u xs k false (Some i) (Some ot) pre post) as [xs'| | |]; simpl.
+      + destruct H as [H1 [H2 H3]]. split; [exact H1|]. subst xs'. apply gh_inv_push_node; auto.
+      + split; [exact H | exact I].
+      + split; [exact H | apply gh_inv_err, I].
+      + destruct H.
     - (* AddPassthroughNode *)
-      unfold x_add_node, add_node. rewrite gen_add_node_checks_agrees.
-      destruct (g_err (x_st xs)); [split; [reflexivity | exact I]|].
-      destruct (g_compiled (x_st xs)); [split; [reflexivity | exact I]|].
-      destruct (N.eqb k kSTART || N.eqb k kEND); [split; [reflexivity | apply gh_inv_err, I]|].
-      destruct (has_node (x_st xs) k) eqn:Hn; [split; [reflexivity | apply gh_inv_err, I]|].
-      destruct (handler_ok (x_st xs) None pre); cbn [negb andb]; [|split; [reflexivity | apply gh_inv_err, I]].
-      destruct (handler_ok (x_st xs) None post); cbn [negb andb]; [|split; [reflexivity | apply gh_inv_err, I]].
-      split; [reflexivity|]. refine (gh_inv_add_node xs k _ I Hn _). exact Logic.I.
+      unfold x_add_node. pose proof (gen_add_node_agrees u xs k true None None pre post) as H.
+      destruct (A.add_node u xs k true None None pre post) as [xs'| | |]; simpl.
+      + destruct H as [H1 [H2 H3]]. split; [exact H1|]. subst xs'. apply gh_inv_push_node; auto.
+      + split; [exact H | exact I].
+      + split; [exact H | apply gh_inv_err, I].
+      + destruct H.
     - (* AddEdge *)
-      unfold x_add_edge, add_edge, update_sel.
-      destruct (g_err (x_st xs)); [split; [reflexivity | exact I]|].
-      destruct (g_compiled (x_st xs)); [split; [reflexivity | exact I]|].
-      destruct (N.eqb s kEND); [split; [reflexivity | apply gh_inv_err, I]|].
-      destruct (N.eqb e kSTART); [split; [reflexivity | apply gh_inv_err, I]|].
-      destruct (negb (has_node (x_st xs) s) && negb (N.eqb s kSTART)); [split; [reflexivity | apply gh_inv_err, I]|].
-      destruct (negb (has_node (x_st xs) e) && negb (N.eqb e kEND)); [split; [reflexivity | apply gh_inv_err, I]|].
-      destruct (mem_pair (s, e) (g_ctrl (x_st xs))); [split; [reflexivity | apply gh_inv_err, I]|].
-      set (st1 := mark_ends (set_ctrl (x_st xs) (g_ctrl (x_st xs) ++ [(s, e)])) s e).
-      destruct (mem_pair (s, e) (g_data st1)); [split; [reflexivity | apply gh_inv_err, I]|].
-      set (xs1 := x_with xs (set_tvm st1 (g_tvm st1 ++ [(s, e)]))).
-      assert (I1 : gh_inv xs1) by (apply gh_inv_with; auto).
-      pose proof (xupd_ok (orc 0%nat) xs1 I1) as U. fold (xupd (orc 0%nat)).
-      destruct (xupd (orc 0%nat) xs1) as [xs2|].
-      + destruct U as [U1 I2]. change (x_st xs1) with (set_tvm st1 (g_tvm st1 ++ [(s, e)])) in U1. rewrite U1.
-        split; [reflexivity|]. apply gh_inv_with; auto.
-      + change (x_st xs1) with (set_tvm st1 (g_tvm st1 ++ [(s, e)])) in U.
-        destruct (update_tvm u (orc 0%nat) (set_tvm st1 (g_tvm st1 ++ [(s, e)]))) eqn:K.
-        * exfalso. eapply U. reflexivity.
-        * split; [reflexivity | apply gh_inv_err, I].
-        * split; [reflexivity | apply gh_inv_err, I].
+      unfold x_add_edge. fold (xupd (orc 0%nat)).
+      pose proof (gen_add_edge_agrees u orc (xupd (orc 0%nat)) xs s e I (xupd_ok (orc 0%nat))) as H.
+      destruct (E.add_edge (xupd (orc 0%nat)) xs s e false false) as [xs'| | |]; simpl.
+      + destruct H as [H1 H2]. split; [exact H1 | exact H2].
+      + split; [exact H | exact I].
+      + split; [exact H | apply gh_inv_err, I].
+      + destruct H.
     - (* AddBranch *)
-      unfold x_add_branch, add_branch.
-      destruct (g_err (x_st xs)); [split; [reflexivity | exact I]|].
-      destruct (g_compiled (x_st xs)); [split; [reflexivity | exact I]|].
-      destruct (N.eqb s kEND); [split; [reflexivity | apply gh_inv_err, I]|].
-      destruct (negb (has_node (x_st xs) s) && negb (N.eqb s kSTART)); [split; [reflexivity | apply gh_inv_err, I]|].
-      destruct (Nat.eqb (List.length ends) 1); [split; [reflexivity | apply gh_inv_err, I]|].
-      fold (xupd (fun n => orc 0%nat (S n))).
-      pose proof (gen_branch_head_agrees u (fun n => orc 0%nat (S n)) (xupd (fun n => orc 0%nat (S n))) xs s t I
-                    (xupd_ok (fun n => orc 0%nat (S n)))) as H.
-      destruct (B.branch_head u (xupd (fun n => orc 0%nat (S n))) xs s t) as [xs1 conv|].
-      + destruct H as [H1 [I1 [H2 H3]]]. rewrite H1.
-        rewrite xb_ends_agrees.
-        pose proof (gen_branch_ends_agrees u orc (fun j => xupd (orc j)) (order_keys (orc 0%nat 0%nat) ends) 0 xs1 s I1
-                      (fun j => xupd_ok (orc (S j)))) as E.
-        destruct (xb_ends (fun j => xupd (orc j)) 0 xs1 s (order_keys (orc 0%nat 0%nat) ends)) as [xs2|].
-        * destruct E as [E1 I2]. subst conv. rewrite conv_tys_map_Some.
-          destruct (check_assignable u (out_ty (x_st xs1) s) (Some t)) eqn:K; [congruence | |];
-            rewrite E1; (split; [reflexivity | apply gh_inv_with; auto]).
-        * destruct (check_assignable u (out_ty (x_st xs1) s) (Some t)) eqn:K; [congruence | |];
-            rewrite E; (split; [reflexivity | apply gh_inv_err, I]).
-      + destruct (branch_pre u false false false (fun n => orc 0%nat (S n)) (x_st xs) s t) as [st1| |].
-        * rewrite H. split; [reflexivity | apply gh_inv_err, I].
-        * split; [reflexivity | apply gh_inv_err, I].
-        * split; [reflexivity | apply gh_inv_err, I].
+      unfold x_add_branch. destruct (branch_upd_ok orc) as [U0 Uj].
+      pose proof (gen_add_branch_agrees u orc (x_branch_upd (V.validate_entry u) orc) xs s t ends choice I U0 Uj) as H.
+      destruct (B.add_branch u (x_branch_upd (V.validate_entry u) orc) xs s t ends (order_keys (orc 0%nat 0%nat) ends) choice false) as [xs'| | |]; simpl.
+      + destruct H as [H1 H2]. split; [exact H1 | exact H2].
+      + split; [exact H | exact I].
+      + split; [exact H | apply gh_inv_err, I].
+      + destruct H.
     - (* Compile *)
-      unfold x_compile. destruct (g_err (x_st xs)) eqn:E.
-      + unfold compile. rewrite E. split; [reflexivity | exact I].
-      + rewrite (gen_compile_checks_agrees xs KT E). destruct (C.compile_checks xs); simpl.
+      unfold x_compile. destruct (g_err (x_st xs)) eqn:Er.
+      + unfold compile. rewrite Er. split; [reflexivity | exact I].
+      + rewrite (gen_compile_checks_agrees xs KT Er). destruct (C.compile_checks xs); simpl.
         * split; [reflexivity | apply gh_inv_with; auto].
         * split; [reflexivity | exact I].
   Qed.
@@ -269,7 +230,7 @@ Section Run.
       unfold xrun in *. simpl. fold xstep.
       destruct (xstep (orcs i) xs o) as [xs1 ok] eqn:X. simpl in *.
       destruct (IH orcs (S i) xs1 I1 KT1) as [R1 I2]. rewrite R1.
-      destruct (x_run_ops (V.validate_entry u) (B.branch_head u) B.branch_end (A.add_node_checks u) C.compile_checks orcs (S i) xs1 rest) as [xs2 oks].
+      destruct (x_run_ops (V.validate_entry u) (A.add_node u) E.add_edge (B.add_branch u) C.compile_checks orcs (S i) xs1 rest) as [xs2 oks].
       simpl. split; [reflexivity | exact I2].
   Qed.
 
